@@ -206,6 +206,23 @@ pub fn boundary_scenarios(quick: bool) -> Vec<Scenario> {
             }
         }
     }
+    // the body uses the window up exactly and the stream then ends with a frame that needs no window (empty DATA with
+    // END_STREAM, trailers), queued together with the body
+    for (w, body) in [(Some(20u32), 20usize), (Some(10), 10), (None, 65_535)] {
+        for end in [EndKind::EmptyData, EndKind::Trailers] {
+            for chunks in [vec![body], vec![body / 2, body - body / 2]] {
+                if quick && body > 1000 && chunks.len() > 1 {
+                    continue;
+                }
+                let msg = MsgSpec { end: end.clone(), ..m(&chunks) };
+                v.push(Scenario {
+                    name: format!("window-exactly-used-{}-{:?}-{}", body, end, chunks.len()),
+                    cfg: Cfg { c_stream_window: w, s_stream_window: w, ..Cfg::default() },
+                    streams: vec![StreamSpec::new(msg.clone(), msg)],
+                });
+            }
+        }
+    }
     // reservations of 1..=12 octets through a send buffer of 5 (multiples, non-multiples, below, above the limit)
     for n in 1usize..=12 {
         v.push(Scenario {
